@@ -37,6 +37,10 @@ pub fn main() {
                 None => 2,
             }
         }
+        Some("c14child") => {
+            let tier = Tier::parse(&args[2]);
+            super::props::mes::console_child(tier, args[3].parse().unwrap_or(0), args[4].parse().unwrap_or(0))
+        }
         Some("replay") => replay(&PathBuf::from(args.get(2).cloned().unwrap_or_default())),
         Some("selfcheck") => selfcheck(),
         _ => {
